@@ -283,6 +283,9 @@ func (r *Run) runTask(g *rt.ParkedGate) {
 
 func (r *Run) afterReconcile(informersLagging bool) {
 	or := r.or
+	if r.cur.partial && !r.cur.noop {
+		r.sawPartialChange = true
+	}
 	r.acmeAfterReconcile()
 	if or.Spacing {
 		r.checkReconcileSpacing()
